@@ -83,6 +83,17 @@ func runC10(c *core.Ctx) {
 			name += fmt.Sprintf("%s+%dus,", p, dur/time.Microsecond)
 		}
 		cfg.PlanKind = name
+		fragTrial := len(cfg.Entries) > 0 && cfg.Entries[0] == wl.EReadFromFrag // pieces refused by a Close would legitimately cut a payload short
+		if idx%64 == 1 && !fragTrial {
+			// Close arrives while the sender is still inside its first Writev with the other accepted payloads queued behind it
+			// (the sender is held there until Close has polled once), and late writers keep writing
+			cfg.Mode, cfg.Queue = mon.Blocking, 64
+			cfg.Writers, cfg.PerWriter = 2+rng.Intn(2), 3+rng.Intn(3)
+			cfg.Closer, cfg.LateWriters = 1, 1+rng.Intn(2)
+			cfg.Plan = []mon.Step{{At: "tV0", Occ: 1, Kind: mon.Gate, Until: "cPoll", UntilCount: 1, Timeout: 300 * time.Millisecond},
+				{At: "tV0", Occ: 2, Kind: mon.Sleep, D: time.Duration(50+rng.Intn(300)) * time.Microsecond}}
+			cfg.PlanKind = "close-while-sender-inside-writev"
+		}
 		if idx%4 == 3 {
 			wraps := [][2]int{{0, 64}, {4096, 4096}, {0, 4096}, {0, 0}}
 			wv := wraps[(idx/4)%len(wraps)]
